@@ -448,6 +448,74 @@ pub fn run_c12(ctx: &mut Ctx, scenarios: &str) {
     }
 }
 
+/// C15 for client-assembled transforms: "for every transform" includes the ones built with the public constructors.  The
+/// TLC-generated constructor trees (those of moderate length) are built for f32 / f64 alternately and called through the
+/// immutable-input entry point only - well- and ill-shaped, input in read-only pages - and the input bits are compared.
+fn immut_tree<T: Real + Elem>(ctx: &mut Ctx, t: &Value, desc: &str, salt: usize) {
+    let n = tree_len(t) as usize;
+    for d in DIRS {
+        let built = match build_tree::<T>(t, d) {
+            Ok(f) => Ok(f),
+            Err(BuildErr::Skip(_)) => return,
+            Err(BuildErr::Panic(m)) => Err(m),
+        };
+        ctx.case(format!("immut-ctor {} {} {}", T::ELEM, desc, dir_name(d)), true);
+        let pl = match ctx.construct::<T>(n, d, desc, built) {
+            Some(pl) => pl,
+            None => continue,
+        };
+        let adv = pl.adv[2];
+        let mut shapes: Vec<(usize, usize, usize, &str)> = vec![(n, n, adv, "well"), (3 * n, 3 * n, adv + 1, "well"), (2 * n + 1, 2 * n + 1, adv, "ill-data"), (2 * n, 2 * n + 1, adv, "ill-out")];
+        if adv > 0 {
+            shapes.push((2 * n, 2 * n, adv - 1, "ill-scratch"));
+        }
+        let z = Complex::<T>::zero();
+        for (si, (dl, ol, sl, class)) in shapes.into_iter().enumerate() {
+            let x: Vec<Complex<T>> = gen_input("uniform", dl, 0, &mut ctx.rng);
+            let out = vec![z; ol];
+            let scratch = vec![Complex { re: T::of_f64(f64::NAN), im: T::of_f64(f64::NAN) }; sl];
+            let before = x.clone();
+            let align = if (salt + si) % 2 == 0 { Align::End } else { Align::Start };
+            ctx.call(&pl, Entry::Immut, &x, &out, &scratch, Some(align), json!({"class": class}), move |r| {
+                vec![json!({"kind": "unchanged", "unchanged": bits_equal(&r.input_after, &before)})]
+            });
+        }
+    }
+}
+
+pub fn run_c15_trees(ctx: &mut Ctx, scenarios: &str, item0: usize) {
+    if scenarios.is_empty() {
+        return;
+    }
+    let txt = match std::fs::read_to_string(scenarios) {
+        Ok(t) => t,
+        Err(_) => return,
+    };
+    ctx.flush_calls = true;
+    let mut idx = item0;
+    for (li, line) in txt.lines().enumerate() {
+        let t: Value = match serde_json::from_str(line) {
+            Ok(v) => v,
+            Err(_) => continue,
+        };
+        if tree_len(&t) > 2100 || (ctx.quick() && li % 2 == 1) {
+            continue;
+        }
+        let desc = tree_desc(&t);
+        let i = idx;
+        idx += 1;
+        let elem = if li % 4 < 2 { "f32" } else { "f64" };
+        if !ctx.scenario(i, &format!("immut-ctor {} {}", elem, desc)) {
+            continue;
+        }
+        if elem == "f32" {
+            immut_tree::<f32>(ctx, &t, &desc, i);
+        } else {
+            immut_tree::<f64>(ctx, &t, &desc, i);
+        }
+    }
+}
+
 #[allow(dead_code)]
 fn _u<T: FftNum>(_: [u32; 2]) -> [u32; 2] {
     hash2::<T>(&[])
